@@ -223,6 +223,8 @@ struct Ref {
     order: Vec<u8>,
     bars: Vec<RB>,
     bottom_ever: bool,
+    /// the alignment in force is Bottom
+    bottom_now: bool,
     cleared: bool,
 }
 
@@ -340,7 +342,7 @@ impl Hist for Cfg {
             Some(hz) => ProgressDrawTarget::term_like_with_hz(spy.boxed(), hz),
         };
         let mut wd = World { mp: MultiProgress::with_draw_target(target), spy: spy.clone(), bars: vec![] };
-        let mut rf = Ref { logs: vec![], order: vec![], bars: vec![], bottom_ever: false, cleared: false };
+        let mut rf = Ref { logs: vec![], order: vec![], bars: vec![], bottom_ever: false, bottom_now: false, cleared: false };
         let all: Vec<&Op> = self.root.iter().chain(hist.iter()).collect();
         let shown_hist: Vec<String> = hist.iter().map(|o| format!("{:?}", o)).collect();
         let total = all.len();
@@ -348,6 +350,7 @@ impl Hist for Cfg {
         let mut last_painted = false;
         let mut must_paint = false;
         let mut drop_finished_noop: Option<Vec<String>> = None;
+        let mut bottom_before = false;
         let trace = std::env::var("VCHECK_TRACE").is_ok();
         if trace {
             spy.enable_log();
@@ -375,6 +378,9 @@ impl Hist for Cfg {
                 let mut st = spy.st();
                 let calls = st.log.replace(Vec::new()).unwrap_or_default();
                 println!("    {:?}: painted={} calls={:?}\n      doc={:?} cursor={:?}", op, painted, calls, st.model.doc(), st.model.cursor());
+            }
+            if is_last {
+                bottom_before = rf.bottom_now;
             }
             let (mp_, dfn) = self.apply_ref(&mut rf, op, painted);
             if is_last {
@@ -430,6 +436,15 @@ impl Hist for Cfg {
         match self.judge(&rf, &doc, scroll) {
             Ok(()) => {}
             Err((class, detail)) => return bad(class, format!("{detail}; document {:?}", doc)),
+        }
+        // bottom alignment: the bars stay at the bottom of the region when it shrinks; only clearing
+        // or suspending the whole region (and a change of alignment) may move its bottom row up
+        if bottom_before && rf.bottom_now && !self.height_clauses && !matches!(all[total - 1], Op::MpClear | Op::MpSuspend | Op::MpSuspendEmpty | Op::BarSuspend(_) | Op::AlignTop | Op::AlignBottom) {
+            let live_rows: Vec<String> = rf.order.iter().map(|&x| &rf.bars[x as usize]).filter(|b| !b.dropped).filter_map(|b| b.shown.as_ref().and_then(|s| s.first().cloned())).filter(|r| !r.is_empty()).collect();
+            let still_there = live_rows.iter().any(|r| doc_before.contains(r) && doc.contains(r));
+            if still_there && doc.len() < doc_before.len() {
+                return bad("bottom: the bars moved up although the alignment is Bottom (the region's last row is not where it was)".into(), format!("before {:?}, after {:?}", doc_before, doc));
+            }
         }
         stats.outcomes.insert(hash_of(&doc));
         let key: Vec<(char, &str, u64, Status, bool, bool)> = rf.bars.iter().map(|b| (b.name, b.msg.as_str(), b.pos, b.status, b.dropped, b.removed)).collect();
@@ -688,8 +703,11 @@ impl Cfg {
                 rf.order.retain(|y| y != x);
                 vanishers(rf);
             }
-            Op::AlignBottom => rf.bottom_ever = true,
-            Op::AlignTop => {}
+            Op::AlignBottom => {
+                rf.bottom_ever = true;
+                rf.bottom_now = true;
+            }
+            Op::AlignTop => rf.bottom_now = false,
             Op::Idle => {}
         }
         if painted {
